@@ -35,9 +35,9 @@ def sh(cmd, cwd=None, timeout=None, env=None):
     p = subprocess.run(cmd, cwd=cwd, env=env or ENV, stdout=subprocess.PIPE, stderr=subprocess.STDOUT, text=True, timeout=timeout)
     return p.returncode, p.stdout
 
-def cargo_check(mask, slot):
+def cargo_check(mask, slot, release=False):
     feats = [f for i, f in enumerate(FEATS) if mask >> i & 1]
-    cmd = ["cargo", "check", "--lib", "--offline", "--no-default-features", "--quiet",
+    cmd = ["cargo", "check", "--lib", "--offline", "--no-default-features", "--quiet"] + (["--release"] if release else []) + [
            "--manifest-path", os.path.join(REPO, "Cargo.toml"),
            "--target-dir", os.path.join(HARNESS, f"target-feat-{slot}")]
     if feats: cmd += ["--features", ",".join(feats)]
@@ -45,13 +45,13 @@ def cargo_check(mask, slot):
     errs = [l for l in out.splitlines() if l.startswith("error")]
     return mask, rc == 0, errs[:3]
 
-def sweep(masks):
+def sweep(masks, release=False):
     res = {}
     # one worker per target dir, masks striped so each dir sees related feature sets
     def work(slot):
         out = []
         for m in masks[slot::WORKERS]:
-            out.append(cargo_check(m, slot))
+            out.append(cargo_check(m, slot, release))
         return out
     with concurrent.futures.ThreadPoolExecutor(max_workers=WORKERS) as ex:
         for lst in ex.map(work, range(WORKERS)):
@@ -177,6 +177,25 @@ def run(tier, seed, replay, proof_phase, write_replay, log):
             mask=m, features=feats, cargo_errors=cargo_bad[m], model_unsatisfied=[list(b) for b in model_bad.get(m, [])],
             replay_cmd=f"cd /repo && cargo check --lib --offline --no-default-features --features '{','.join(feats)}'"))
         violations.append((path, ""))
+    # "every subset compiles" is not a statement about the dev profile only: code under `cfg(debug_assertions)` (or the absence of it —
+    # `debug_assert!` still type-checks its argument when assertions are off) is selected by the profile. The release profile is
+    # checked on the empty set, every single feature, every pair, and the full set (quick), on every subset (thorough).
+    full = (1 << len(FEATS)) - 1
+    if tier == "thorough": rmasks = list(masks)
+    else:
+        rmasks = sorted({0, full} | {1 << i for i in range(len(FEATS))} | {(1 << i) | (1 << j) for i in range(len(FEATS)) for j in range(i)} |
+                        {full ^ (1 << i) for i in range(len(FEATS))})
+    rmasks = [m for m in rmasks if m not in cargo_bad]
+    log(f"C20: cargo check --release over {len(rmasks)} feature subsets")
+    rres = sweep(rmasks, release=True)
+    release_bad = {m: r[1] for m, r in rres.items() if not r[0]}
+    for m in sorted(release_bad)[:3]:
+        n += 1
+        feats = [f for i, f in enumerate(FEATS) if m >> i & 1]
+        path = write_replay(prop, seed, n, dict(property=prop, kind="feature subset does not compile in the release profile (cargo check --release on the real crate)",
+            mask=m, features=feats, cargo_errors=release_bad[m],
+            replay_cmd=f"cd /repo && cargo check --release --lib --offline --no-default-features --features '{','.join(feats)}'"))
+        violations.append((path, ""))
     # "with all default features off (no_std + alloc only)": in the empty configuration no dependency may have its own
     # `std` feature switched on — a host `cargo check` cannot see that (std is always there on the host), the resolved feature
     # graph can. (With `json` on, serde_json's std is on in the pinned tree as well: only the empty set is stated.)
@@ -234,7 +253,7 @@ def run(tier, seed, replay, proof_phase, write_replay, log):
                 traces_validated_against_impl=len(masks),
                 table_rows=len(T["table"]), feature_edges=T["fedges"], crate_edges=T["dedges"],
                 std_gated_regions=len(T.get("stdgated", [])), std_gated_behavioural=[list(x) for x in std_behavioural],
-                cargo_failing_subsets=len(cargo_bad), model_failing_subsets=len(model_bad),
+                cargo_failing_subsets=len(cargo_bad), release_profile_subsets_checked=len(rmasks), release_profile_failing_subsets=len(release_bad), model_failing_subsets=len(model_bad),
                 model_vs_cargo_disagreements=disagreements[:20],
                 core_lines=nlines, core_disagreements=len(probs), core_fields_differing_from_model_only=MODEL_ONLY[0], proof_failures=proof["failures"],
                 partial="rustc's name resolution is abstracted; the sweep over the finite configuration space closes the gap"),
